@@ -69,11 +69,11 @@ func relLine(c *Ctx, a Access) string {
 }
 
 func checkC12(c *Ctx) {
-	c.Rule("R12.1", "every access to BufferedWriteSyncer's mutable state holds its mutex", 20)
-	c.Rule("R12.2", "Write: one buffered write of the original parameter; flush first exactly when it does not fit and the buffer is non-empty", 4)
+	c.Rule("R12.1", "every access to BufferedWriteSyncer's mutable state holds its mutex", 18)
+	c.Rule("R12.2", "Write: one buffered write of the original parameter; flush first exactly when it does not fit and the buffer is non-empty", 3)
 	c.Rule("R12.3", "Sync flushes when initialised and always syncs the sink", 2)
-	c.Rule("R12.4", "Stop protocol: atomic test-and-set, close once, wait unlocked, final Sync, non-blocking otherwise", 5)
-	c.Rule("R12.5", "flush loop: done closed on exit, exits only on stop, Sync on every tick; single go statement in initialize", 4)
+	c.Rule("R12.4", "Stop protocol: atomic test-and-set, close once, wait unlocked, final Sync, non-blocking otherwise", 4)
+	c.Rule("R12.5", "flush loop: done closed on exit, exits only on stop, Sync on every tick; single go statement in initialize", 3)
 	c12Rules(c, "R12.1", "R12.2", "R12.3", "R12.4", "R12.5")
 }
 
